@@ -225,6 +225,57 @@ def impl_obs(p) -> str:
 # -------------------------------------------------------------------------------------------------
 
 
+def embed_generated(paths) -> Dict[str, str]:
+    out = {}
+    for p in set(paths):
+        if not p.startswith(str(EX)) and Path(p).exists() and Path(p).stat().st_size < 200_000:
+            out[p] = Path(p).read_bytes().hex()
+    return out
+
+
+def expand(history):
+    """corpus histories name example files as $EX/<file>"""
+    return [[e[0], e[1], e[2].replace("$EX", str(EX))] for e in history]
+
+
+def restore_generated(files: Dict[str, str]) -> List[str]:
+    made = []
+    for p, hx in (files or {}).items():
+        if not Path(p).exists():
+            Path(p).parent.mkdir(parents=True, exist_ok=True)
+            Path(p).write_bytes(bytes.fromhex(hx))
+            made.append(p)
+    return made
+
+
+def run_history(history, key) -> Optional[Dict[str, str]]:
+    """run a stored history in this process; the digests of the last parse of `key` in it"""
+    got = None
+    objs: Dict[str, Any] = {}
+    with quiet():
+        for e in history:
+            op, name, path = e[0], e[1], e[2]
+            if op == "parse_file":
+                _, d = c16_canon.run_parse(name, path)
+                if (name, path) == key:
+                    got = d
+            else:
+                slot = op[1:]
+                try:
+                    if op[0] == "c":
+                        objs[slot] = construct(name, path)
+                    elif op[0] == "p" and slot in objs:
+                        do_parse(objs[slot])
+                        if (name, path) == key:
+                            got = c16_canon.result_digests(objs[slot])
+                    elif op[0] == "m" and slot in objs:
+                        c16_canon.mutate_result(objs[slot])
+                except (Exception, SystemExit) as err:
+                    if (name, path) == key and op[0] == "p":
+                        got = {"error": type(err).__name__}
+    return got
+
+
 class Explorer:
     def __init__(self, ctx: Ctx, fresh: Dict[Tuple[str, str], Dict[str, str]], info: Dict[Tuple[str, str], Dict],
                  mech: str):
@@ -239,13 +290,17 @@ class Explorer:
         want = self.fresh[key]
         if dig != want:
             name = key[0]
+            first = not any(v.key == f"history-dependence:{name}" for v in self.ctx.violations)
+            payload = {"history": hist, "observed": list(key), "when": when, "fresh": want, "got": dig,
+                       "earlier_in_process": len(self.log)}
+            if first:  # a self-contained replay: the whole in-process log and the text of generated inputs
+                payload["full_log"] = [list(e) for e in self.log]
+                payload["generated_files"] = embed_generated([e[2] for e in self.log] + [e[2] for e in hist])
             self.ctx.violate(
                 f"history-dependence:{name}",
                 f"parse of {Path(key[1]).name} by {name} ({when}) differs from the parse in a fresh interpreter in "
                 f"{diff_keys(dig, want)} (fresh: {'error ' + want['error'] if 'error' in want else 'ok'}, "
-                f"here: {'error ' + dig['error'] if 'error' in dig else 'ok'})",
-                {"history": hist, "observed": list(key), "when": when, "fresh": want, "got": dig,
-                 "earlier_in_process": len(self.log)})
+                f"here: {'error ' + dig['error'] if 'error' in dig else 'ok'})", payload)
 
     def parse_file(self, key: Tuple[str, str], hist: List[List[str]], when: str):
         """construct + parse (the library's parse_file), with the header model compared on generated headers"""
@@ -421,6 +476,26 @@ def run(ctx: Ctx):
     finally:
         shutil.rmtree(tmp, ignore_errors=True)
     ctx.extra["wall_explore_s"] = round(time.time() - t_start, 1)
+    escalate_unexplained(ctx)
+
+
+def escalate_unexplained(ctx: Ctx):
+    """common.finish lets a listed known finding 'explain' any broken obligation or correspondence.  The finding of
+    this property (plugin:parsers.rinex_nav) is permanent, so a broken theorem/correspondence that no *unlisted*
+    oracle failure accounts for is reported here as a violation of its own (with what no longer checks)."""
+    known = {k for k, _ in common.load_known(ctx.prop)[0]}
+    if any(v.key not in known for v in ctx.violations):
+        return
+    broken = []
+    if ctx.proof is not None and not ctx.proof.ok:
+        broken += [f"theorem/obligation: {f}" for f in ctx.proof.failed] or ["theorem/obligation: lake build failed"]
+    broken += sorted({f"correspondence: {d['correspondence']}" for d in ctx.corr_broken})
+    if broken:
+        ctx.violate("no-failing-input-found:" + broken[0][:80],
+                    "no-failing-input-found: the history exploration found no parse that differs from a fresh interpreter, but "
+                    + "; ".join(broken)[:600],
+                    {"no_longer_checks": broken, "disagreements": ctx.corr_broken[:10],
+                     "build_log_tail": ctx.proof.log_tail if ctx.proof is not None else ""})
 
 
 def _explore(ctx, drv, rng, tmp, static_cells, effects, mech, tinfo):
@@ -444,7 +519,9 @@ def _explore(ctx, drv, rng, tmp, static_cells, effects, mech, tinfo):
     hashes0 = {k[1]: sha(k[1]) for k in all_keys}
 
     # ---- reference: every input parsed in its own fresh interpreter
+    t_f = time.time()
     fresh = fresh_many(all_keys)
+    ctx.extra["wall_fresh_interpreters_s"] = round(time.time() - t_f, 1)
     parsing = [k for k in catalog if "error" not in fresh[k]]
     ctx.extra["parsers_listed"] = len(names)
     ctx.extra["parsers_parsing_an_example"] = len({k[0] for k in parsing})
@@ -454,6 +531,28 @@ def _explore(ctx, drv, rng, tmp, static_cells, effects, mech, tinfo):
 
     # ---- static table vs run-time cells: snapshot after loading every plug-in, before any parse
     snap0 = c16_canon.snapshot_cells(REPO)
+
+    # ---- corpus: minimised past violations first
+    for cf_ in sorted((common.VERIF / "corpus" / "C16").glob("*.json")):
+        c = json.loads(cf_.read_text())
+        c["history"] = expand(c["history"])
+        made = restore_generated(c.get("generated_files"))
+        try:
+            key = tuple(c["observed"])
+            if all(Path(e[2]).exists() for e in c["history"]):
+                want = worker("parse", {"parser": key[0], "path": key[1]})
+                got = run_history(c["history"], key)
+                ex.log.extend([list(e) for e in c["history"]])
+                ctx.case({"phase": "corpus", "file": cf_.name}, nontrivial=True)
+                ctx.count("corpus-history")
+                if got != want:
+                    ctx.violate(f"history-dependence:{key[0]}", f"corpus history {cf_.name}: parse of {Path(key[1]).name} by {key[0]} "
+                                f"differs from the parse in a fresh interpreter in {diff_keys(got or {}, want)}",
+                                {"history": c["history"], "observed": list(key), "generated_files": c.get("generated_files"),
+                                 "fresh": want, "got": got})
+        finally:
+            for p_ in made:
+                Path(p_).unlink(missing_ok=True)
 
     # ---- phase 1: every input once (chain), timed; then ordered pairs
     cost: Dict[Tuple[str, str], float] = {}
@@ -467,6 +566,7 @@ def _explore(ctx, drv, rng, tmp, static_cells, effects, mech, tinfo):
         ctx.case({"phase": "chain", "key": list(k)}, nontrivial=True)
         ctx.count("parse-in-history")
     snap1 = c16_canon.snapshot_cells(REPO)
+    ctx.extra["wall_chain_s"] = round(sum(cost.values()), 1)
 
     cheap = [k for k in all_keys if cost[k] < 0.12]
     fam: Dict[str, List[Tuple[str, str]]] = {}
@@ -478,7 +578,7 @@ def _explore(ctx, drv, rng, tmp, static_cells, effects, mech, tinfo):
         for a in ks[:4]:
             for b in ks[:4]:
                 pairs.append((a, b))
-    budget_s = 14.0 if not ctx.thorough else 200.0
+    budget_s = 9.0 if not ctx.thorough else 200.0
     cross = [(a, b) for a in all_keys for b in all_keys if a[0] != b[0]]
     rng.shuffle(cross)
     t0 = time.time()
@@ -502,7 +602,7 @@ def _explore(ctx, drv, rng, tmp, static_cells, effects, mech, tinfo):
     same = [(a, b) for n, ks in fam.items() for a in ks[:3] for b in ks[:3]]
     crossc = [(a, b) for a in cheap for b in cheap if a[0] != b[0]]
     rng.shuffle(crossc)
-    budget_s = 14.0 if not ctx.thorough else 200.0
+    budget_s = 9.0 if not ctx.thorough else 200.0
     t0 = time.time()
     npairs = 0
     for a, b in same + crossc:
@@ -611,37 +711,25 @@ def replay(payload):
         print(json.dumps(c, indent=1)[:2000])
         return 0
     key = tuple(c["observed"])
-    missing = [e[2] for e in c["history"] if not Path(e[2]).exists()]
-    if missing:
-        print("generated input no longer exists (temporary file):", missing[0], "- re-run ./check C16 with the recorded seed")
-        return 2
-    want = worker("parse", {"parser": key[0], "path": key[1]})
-    got = None
-    objs: Dict[str, Any] = {}
-    with quiet():
-        for e in c["history"]:
-            op, name, path = e[0], e[1], e[2]
-            if op == "parse_file":
-                _, d = c16_canon.run_parse(name, path)
-                if (name, path) == key:
-                    got = d
-            else:
-                slot = op[1:]
-                try:
-                    if op[0] == "c":
-                        objs[slot] = construct(name, path)
-                    elif op[0] == "p" and slot in objs:
-                        do_parse(objs[slot])
-                        if (name, path) == key:
-                            got = c16_canon.result_digests(objs[slot])
-                    elif op[0] == "m" and slot in objs:
-                        c16_canon.mutate_result(objs[slot])
-                except (Exception, SystemExit) as err:
-                    if (name, path) == key and op[0] == "p":
-                        got = {"error": type(err).__name__}
+    c["history"] = expand(c["history"])
+    made = restore_generated(c.get("generated_files"))
+    try:
+        missing = [e[2] for e in c["history"] if not Path(e[2]).exists()]
+        if missing:
+            print("generated input no longer exists (temporary file):", missing[0], "- re-run ./check C16 with the recorded seed")
+            return 2
+        want = worker("parse", {"parser": key[0], "path": key[1]})
+        got = run_history(c["history"], key)
+        which = "the recorded local history"
+        if got == want and c.get("full_log"):
+            got = run_history(c["full_log"] + c["history"], key)
+            which = "the whole recorded in-process log"
+    finally:
+        for p in made:
+            Path(p).unlink(missing_ok=True)
     print("history:", c["history"])
     print("fresh interpreter:", "error " + want["error"] if "error" in want else "ok")
-    print("in this history :", "error " + got["error"] if got and "error" in got else "ok")
+    print("in this history :", "error " + got["error"] if got and "error" in got else "ok", f"({which})")
     if got != want:
         print("VIOLATION reproduced: differs in", diff_keys(got or {}, want))
         return 1
